@@ -268,6 +268,16 @@ def check_container_inputs(ctx, model, prop_note=""):
             continue
         routed.add("list" if rv[1] == "self.map_list" else "ndarray")
     if routed != {"list", "ndarray"}:
+        # not the if-chain known: where a list / an array goes is read off
+        # the interpreted map_foreign
+        try:
+            from .. import dispatch
+            _w, routes = dispatch.judge_foreign(model)
+            routed = {k_ for k_ in ("list", "ndarray") if routes.get(k_) == {
+                "list": "map_list", "ndarray": "map_numpy_array"}[k_]}
+        except AnalysisError:
+            pass
+    if routed != {"list", "ndarray"}:
         raise AnalysisError(f"map_foreign routes {sorted(routed)}: expected list "
                             "and ndarray handlers")
     cm = model.cls(f"{M}:CachedMapper")
